@@ -32,9 +32,11 @@ spec fn pairs_of(table: Map<String, Vec<&AliasMapping>>, fm: f::Mapping, pairs: 
     f::Mapping::RepeatOnlySingle(_) => pairs.len() == 0,
   }
 }
-/// C13: the converted layout is, in source order, the pairs of each source mapping, followed only by identity mappings (added by repeat-only entries)
+/// C13: with the alias table that lists for every alias name the definitions written for it in source order (table_for), the converted layout is,
+/// in source order, the pairs of each source mapping, followed only by identity mappings (added by repeat-only entries)
 spec fn shape_w(f: f::Layout, l: s::Layout, table: Map<String, Vec<&AliasMapping>>, chunks: Seq<Seq<(Seq<KeyCode>, Seq<KeyCode>)>>, n: int) -> bool {
-  chunks.len() == f.mappings@.len() && (forall|i: int| 0 <= i < chunks.len() ==> pairs_of(table, f.mappings@[i], #[trigger] chunks[i]))
+  table_for(table, f.mappings@, f.mappings@.len() as int)
+  && chunks.len() == f.mappings@.len() && (forall|i: int| 0 <= i < chunks.len() ==> pairs_of(table, f.mappings@[i], #[trigger] chunks[i]))
   && 0 <= n <= l.mappings@.len() && fts(l.mappings@).take(n) == flat(chunks)
   && forall|j: int| n <= j < l.mappings@.len() ==> (#[trigger] l.mappings@[j]).from@ == l.mappings@[j].to@
 }
@@ -307,6 +309,19 @@ spec fn single_pairs(it: AliasCombinationIterable, tuples: Seq<Seq<usize>>, sing
   }
 }
 
+/// C13: repeat mode and absorbing list of the mapping a single mapping yields for combination t: the repeat mode as written, the keys of a Special
+/// repeat and the absorbing list with aliases replaced by the keys chosen on the trigger side
+spec fn single_repeat_spec(it: AliasCombinationIterable, t: Seq<usize>, r: f::SingleRepeat) -> Option<crate::keys::RepeatV> {
+  match r {
+    f::SingleRepeat::Normal => Some(crate::keys::RepeatV::Normal),
+    f::SingleRepeat::Disabled => Some(crate::keys::RepeatV::Disabled),
+    f::SingleRepeat::Special { keys, delay_ms, interval_ms } => match translate_spec(it, t, keys) { Some(v) => Some(crate::keys::RepeatV::Special { keys: v, delay_ms, interval_ms }), None => None },
+  }
+}
+spec fn single_extras(it: AliasCombinationIterable, tuples: Seq<Seq<usize>>, single: f::SingleMapping, ms: Seq<s::Mapping>) -> bool {
+  ms.len() == tuples.len() && forall|i: int| 0 <= i < tuples.len() ==> single_repeat_spec(it, tuples[i], single.repeat) == Some(crate::keys::rview((#[trigger] ms[i]).repeat))
+    && reify_spec(it, tuples[i], single.absorbing@, single.absorbing@.len() as int) == Some(ms[i].absorbing@)
+}
 //@ C13 C14 | default: fn convert_single
 #[verifier::exec_allows_no_decreases_clause]
 fn convert_single<'a>(alias_mappings: &'a HashMap<String, Vec<&'a f::AliasMapping>>, single: &f::SingleMapping) -> (r: Result<Vec<s::Mapping>, String>)
@@ -315,7 +330,9 @@ fn convert_single<'a>(alias_mappings: &'a HashMap<String, Vec<&'a f::AliasMappin
     alias_table_ok(alias_mappings@),
   ensures
     //@ C13 | a single mapping with alias modifiers converts to exactly one mapping per combination of alias definitions (every combination once, in counting order), with the trigger and output the statement prescribes
-    match r { Ok(v) => exists|it: AliasCombinationIterable| it.built(alias_mappings@, single.from.modifiers@) && fts(v@) == single_pairs(it, all_combos(it.q()), *single), Err(_) => true },
+    match r { Ok(v) => exists|it: AliasCombinationIterable| it.built(alias_mappings@, single.from.modifiers@) && fts(v@) == single_pairs(it, all_combos(it.q()), *single)
+        //@ C13 | ... and each of them has the repeat mode as written (Special keys with aliases replaced) and the absorbing list with aliases replaced
+        && single_extras(it, all_combos(it.q()), *single, v@), Err(_) => true },
   { //@ | body
   let mut res = Vec::new();
   let modifier_combinations = build_combinations(alias_mappings, &single.from.modifiers)?;
@@ -330,6 +347,8 @@ fn convert_single<'a>(alias_mappings: &'a HashMap<String, Vec<&'a f::AliasMappin
       //@ C13 | the mappings produced so far are those of the combinations handled so far, in order; handled + remaining = all
       __it.itv() == mc, mc == modifier_combinations, all == seen + __it.rem(), all == all_combos(mc.q()), mc.built(alias_mappings@, single.from.modifiers@),
       fts(res@) == single_pairs(mc, seen, *single),
+      //@ C13 | repeat mode and absorbing list of the mappings produced so far
+      single_extras(mc, seen, *single, res@),
     ensures
       //@ C13 | every combination has been handled
       seen == all,
@@ -367,7 +386,10 @@ fn convert_single<'a>(alias_mappings: &'a HashMap<String, Vec<&'a f::AliasMappin
     });
     //@ C13 | one more combination handled
     proof { lemma_fts_push(res0, res@.last()); assert(res@ == res0.push(res@.last()));
-      let s2 = seen.push(t); assert(s2.drop_last() =~= seen); assert(s2.last() == t); seen = s2; }
+      let s2 = seen.push(t); assert(s2.drop_last() =~= seen); assert(s2.last() == t);
+      assert forall|i: int| 0 <= i < s2.len() implies single_repeat_spec(mc, s2[i], single.repeat) == Some(crate::keys::rview((#[trigger] res@[i]).repeat))
+        && reify_spec(mc, s2[i], single.absorbing@, single.absorbing@.len() as int) == Some(res@[i].absorbing@) by { if i < seen.len() { assert(res@[i] == res0[i]); assert(s2[i] == seen[i]); } }
+      seen = s2; }
       } }
   }
   Ok(res)
@@ -412,6 +434,39 @@ proof fn lemma_fts_push(ms: Seq<s::Mapping>, m: s::Mapping)
   ensures fts(ms.push(m)) == fts(ms).push((m.from@, m.to@))
 { assert(fts(ms.push(m)) =~= fts(ms).push((m.from@, m.to@))); }
 
+/// C13: repeat mode of the mapping a row yields for combination t and letter column c: as written; for a Special repeat the letter in column c of the
+/// repeat letters is typed like an output letter (after the repeat modifiers, aliases replaced); no repeat letter in that column (or a space) means Normal
+spec fn row_repeat_spec(it: AliasCombinationIterable, t: Seq<usize>, c: int, rm: f::RowMapping) -> Option<crate::keys::RepeatV> {
+  match rm.repeat {
+    f::RowRepeat::Normal => Some(crate::keys::RepeatV::Normal),
+    f::RowRepeat::Disabled => Some(crate::keys::RepeatV::Disabled),
+    f::RowRepeat::Special { keys, delay_ms, interval_ms } => match reify_spec(it, t, keys.initial@, keys.initial@.len() as int) {
+      None => None,
+      Some(rmods) => if c >= keys.terminal@.len() || keys.terminal@[c] == ' ' { Some(crate::keys::RepeatV::Normal) } else {
+        match row_to_spec(from_mods_spec(it, t, it.modifiers@.len() as int).contains(KeyCode::RIGHTSHIFT), rmods, keys.terminal@[c]) { Some(k) => Some(crate::keys::RepeatV::Special { keys: k, delay_ms, interval_ms }), None => None } } },
+  }
+}
+/// m is the mapping the row yields for combination t and letter column c
+spec fn row_item_ok(it: AliasCombinationIterable, t: Seq<usize>, c: int, rm: f::RowMapping, row: Seq<KeyCode>, m: s::Mapping) -> bool {
+  0 <= c < rm.to.terminal@.len() && rm.to.terminal@[c] != ' ' && c < row.len()
+  && m.from@ == from_mods_spec(it, t, it.modifiers@.len() as int).push(row[c])
+  && reify_spec(it, t, rm.absorbing@, rm.absorbing@.len() as int) == Some(m.absorbing@)
+  && row_repeat_spec(it, t, c, rm) == Some(crate::keys::rview(m.repeat))
+}
+spec fn item_has(it: AliasCombinationIterable, rm: f::RowMapping, row: Seq<KeyCode>, m: s::Mapping) -> bool { exists|t: Seq<usize>, c: int| #[trigger] row_item_ok(it, t, c, rm, row, m) }
+spec fn row_extras(it: AliasCombinationIterable, rm: f::RowMapping, row: Seq<KeyCode>, ms: Seq<s::Mapping>) -> bool {
+  forall|i: int| 0 <= i < ms.len() ==> item_has(it, rm, row, #[trigger] ms[i])
+}
+/// what the per-combination repeat template holds
+spec fn template_ok(tp: RowRepeatTemplate, it: AliasCombinationIterable, t: Seq<usize>, rm: f::RowMapping) -> bool {
+  match rm.repeat {
+    f::RowRepeat::Normal => tp is Normal,
+    f::RowRepeat::Disabled => tp is Disabled,
+    f::RowRepeat::Special { keys, delay_ms, interval_ms } => match tp {
+      RowRepeatTemplate::Special { modifiers, terminal, delay_ms: d2, interval_ms: i2 } => reify_spec(it, t, keys.initial@, keys.initial@.len() as int) == Some(modifiers@) && terminal@ == keys.terminal@ && d2 == delay_ms && i2 == interval_ms,
+      _ => false },
+  }
+}
 //@ C13 C14 | default: fn convert_row
 #[verifier::exec_allows_no_decreases_clause]
 fn convert_row<'t>(alias_mappings: &'t HashMap<String, Vec<&'t f::AliasMapping>>, row_mapping: &f::RowMapping) -> (r: Result<Vec<s::Mapping>, String>)
@@ -421,7 +476,9 @@ fn convert_row<'t>(alias_mappings: &'t HashMap<String, Vec<&'t f::AliasMapping>>
   ensures
     //@ C13 | a row shorthand converts to exactly: for each combination of alias definitions in turn, one mapping per non-space letter in letter order, with trigger = the combination's modifier keys + the key in the letter's column of the row, output = the output modifiers + the Shift the character needs (right Shift iff the trigger has right Shift) + the key of the character
     match r { Ok(v) => (match crate::physical_keyboard_layouts::ukl_row(row_mapping.from.row) {
-        Some(row) => exists|it: AliasCombinationIterable| it.built(alias_mappings@, row_mapping.from.modifiers@) && fts(v@) == row_pairs(it, all_combos(it.q()), *row_mapping, row),
+        Some(row) => exists|it: AliasCombinationIterable| #[trigger] it.built(alias_mappings@, row_mapping.from.modifiers@) && fts(v@) == row_pairs(it, all_combos(it.q()), *row_mapping, row)
+          //@ C13 | ... and each of them has the repeat mode the statement prescribes for its combination and letter column, and the absorbing list with aliases replaced
+          && row_extras(it, *row_mapping, row, v@),
         None => v@.len() == 0 }), Err(_) => true },
   { //@ | body
   proof { axiom_fmt_user_types(); }
@@ -441,7 +498,7 @@ fn convert_row<'t>(alias_mappings: &'t HashMap<String, Vec<&'t f::AliasMapping>>
       //@ C13 | the mappings produced so far are those of the combinations handled so far, in order; handled + remaining = all
       rowo == crate::physical_keyboard_layouts::ukl_row(row_mapping.from.row), letters == row_mapping.to.terminal@,
       __it.itv() == mc, mc == modifier_combinations, all == seen + __it.rem(), all == all_combos(mc.q()), mc.built(alias_mappings@, row_mapping.from.modifiers@),
-      match rowo { Some(row) => fts(res@) == row_pairs(mc, seen, *row_mapping, row), None => res@.len() == 0 },
+      match rowo { Some(row) => fts(res@) == row_pairs(mc, seen, *row_mapping, row) && row_extras(mc, *row_mapping, row, res@), None => res@.len() == 0 },
     ensures
       //@ C13 | every combination has been handled
       seen == all,
@@ -487,7 +544,7 @@ fn convert_row<'t>(alias_mappings: &'t HashMap<String, Vec<&'t f::AliasMapping>>
     let to_terminals: Vec<char> = row_mapping.to.terminal.chars().collect();
     //@ C13 | this combination: its trigger-side and output-side modifier keys, the physical row, the letters
     let ghost ft0 = fts(res@); let ghost row = (**from_physical_row)@; let ghost fm = from_modifiers@; let ghost tm = to_modifiers@;
-    proof { assert(rowo == Some(row)); assert(to_terminals@ == letters); }
+    proof { assert(rowo == Some(row)); assert(to_terminals@ == letters); assert(template_ok(repeat_template, mc, t, *row_mapping)); }
     
     for char_i in 0..to_terminals.len()
       invariant
@@ -497,6 +554,9 @@ fn convert_row<'t>(alias_mappings: &'t HashMap<String, Vec<&'t f::AliasMapping>>
         //@ C13 | one mapping per non-space letter handled so far, in letter order, with the trigger and output the statement prescribes
         fts(res@) == ft0 + row_chunk(fm, tm, row, letters, char_i as int),
         row == (**from_physical_row)@, fm == from_modifiers@, tm == to_modifiers@, to_terminals@ == letters, has_right_shift == fm.contains(KeyCode::RIGHTSHIFT),
+        //@ C13 | repeat mode and absorbing list of every mapping produced so far
+        row_extras(mc, *row_mapping, row, res@), template_ok(repeat_template, mc, t, *row_mapping), modifier_combination.itv() == mc, modifier_combination.tv() == t,
+        fm == from_mods_spec(mc, t, mc.modifiers@.len() as int), letters == row_mapping.to.terminal@,
       { //@ | body
       if char_i >= from_physical_row.len() {
         return Err(format!("Don't know which keycode is at index {} in row {:?}", char_i, row_mapping.from.row));
@@ -530,6 +590,12 @@ fn convert_row<'t>(alias_mappings: &'t HashMap<String, Vec<&'t f::AliasMapping>>
           repeat,
           absorbing
         });
+        //@ C13 | repeat mode and absorbing list of the mapping of this letter
+        proof { assert(row_item_ok(mc, t, char_i as int, *row_mapping, row, res@.last()));
+          assert forall|i: int| 0 <= i < res@.len() implies item_has(mc, *row_mapping, row, #[trigger] res@[i]) by {
+            if i < res0.len() { assert(res@[i] == res0[i]); assert(item_has(mc, *row_mapping, row, res0[i])); }
+            else { assert(res@[i] == res@.last()); } } }
+        //@ C13 | the mapping of this letter
         proof { lemma_fts_push(res0, res@.last()); assert(res@ == res0.push(res@.last()));
           assert(row_chunk(fm, tm, row, letters, char_i as int + 1) == row_chunk(fm, tm, row, letters, char_i as int).push((fg, tg)));
           assert(ft0 + row_chunk(fm, tm, row, letters, char_i as int).push((fg, tg)) =~= (ft0 + row_chunk(fm, tm, row, letters, char_i as int)).push((fg, tg))); }
@@ -539,6 +605,8 @@ fn convert_row<'t>(alias_mappings: &'t HashMap<String, Vec<&'t f::AliasMapping>>
     proof { let s2 = seen.push(t); assert(s2.drop_last() =~= seen); assert(s2.last() == t); seen = s2; }
       } }
   }
+  //@ C13 | the iterable built above is the witness
+  proof { match rowo { Some(row) => { assert(mc.built(alias_mappings@, row_mapping.from.modifiers@) && fts(res@) == row_pairs(mc, all_combos(mc.q()), *row_mapping, row) && row_extras(mc, *row_mapping, row, res@)); }, None => {} } }
   Ok(res)
 }
 
@@ -1294,19 +1362,37 @@ impl <'s> std::iter::Iterator for MultiplyIter<'s> {
 }
 
 
-//@ C14 | default: fn find_alias_mappings
+/// C13: the definitions of alias `name` among the first n source mappings, in source order
+pub open spec fn defs_of(ms: Seq<f::Mapping>, name: String, n: int) -> Seq<AliasMapping>
+  decreases n
+{
+  if n <= 0 { Seq::empty() } else {
+    let prev = defs_of(ms, name, n - 1);
+    match ms[n - 1] { f::Mapping::Alias(a) => if a.to.terminal == name { prev.push(a) } else { prev }, _ => prev }
+  }
+}
+pub open spec fn derefs<'a>(v: Seq<&'a AliasMapping>) -> Seq<AliasMapping> { v.map_values(|x: &AliasMapping| *x) }
+/// C13: the alias table lists, for every alias name, exactly the definitions written for it in the layout, in source order
+pub open spec fn table_for(t: Map<String, Vec<&AliasMapping>>, ms: Seq<f::Mapping>, n: int) -> bool {
+  forall|name: String| #![trigger t.contains_key(name)] #![trigger defs_of(ms, name, n)] (t.contains_key(name) <==> defs_of(ms, name, n).len() > 0) && (t.contains_key(name) ==> derefs(t[name]@) == defs_of(ms, name, n))
+}
+//@ C13 C14 | default: fn find_alias_mappings
 fn find_alias_mappings<'a>(f: &'a f::Layout) -> (r: HashMap<String, Vec<&'a AliasMapping>>)
   ensures
     //@ C14 | data-structure invariants that keep every index in bounds (panic-freedom of the converter)
     alias_table_ok(r@),
+    //@ C13 | the alias table lists for every alias name exactly the definitions written for it, in source order
+    table_for(r@, f.mappings@, f.mappings@.len() as int),
   { //@ | body
   proof { axiom_string_key_model(); assert(vstd::std_specs::hash::builds_valid_hashers::<std::collections::hash_map::RandomState>()); }
   broadcast use vstd::std_specs::hash::group_hash_axioms;
   use f::*;
   
   let mut res = HashMap::new();
+  //@ C13 | number of source mappings scanned
+  let ghost mut done: int = 0;
   
-  for m in &f.mappings
+  for m in itm: &f.mappings
     invariant
       //@ C14 | data-structure invariants that keep every index in bounds (panic-freedom of the converter)
       alias_table_ok(atab(&res)),
@@ -1315,18 +1401,29 @@ fn find_alias_mappings<'a>(f: &'a f::Layout) -> (r: HashMap<String, Vec<&'a Alia
       //@ C14 | data-structure invariants that keep every index in bounds (panic-freedom of the converter)
       vstd::std_specs::hash::obeys_key_model::<String>(),
       vstd::std_specs::hash::builds_valid_hashers::<std::collections::hash_map::RandomState>(),
+      //@ C13 | the table built so far lists the definitions among the mappings scanned so far
+      itm.seq().len() == f.mappings@.len(), forall|j: int| 0 <= j < f.mappings@.len() ==> *itm.seq()[j] == f.mappings@[j],
+      done == itm.index@, table_for(atab(&res), f.mappings@, done),
     { //@ | body
     let ghost t0 = atab(&res); let ghost mut vfin: Option<Vec<&'a AliasMapping>> = None;
+    //@ C13 | the source mapping of this iteration
+    let ghost ms = f.mappings@; let ghost n0 = done;
+    proof { assert(*m == ms[n0]); }
     match m {
       Mapping::Alias(alias) => {
         match res.get_mut(&alias.to.terminal) {
           None => {
             res.insert(alias.to.terminal.clone(), vec![alias]);
             proof { assert forall|name: String| #[trigger] res@.contains_key(name) implies res@[name]@.len() >= 1 by { if t0.contains_key(name) && res@[name] == t0[name] { assert(t0[name]@.len() >= 1); } } }
+            //@ C13 | a first definition of this name
+            proof { let term = alias.to.terminal; assert(!t0.contains_key(term)); assert(defs_of(ms, term, n0).len() == 0);
+              assert(res@[term]@ =~= seq![alias]); assert(derefs(res@[term]@) =~= defs_of(ms, term, n0).push(*alias)); }
           },
           Some(list) => {
+            //@ C13 | one more definition of this name
+            let ghost l0 = list@;
             list.push(alias);
-            proof { vfin = Some(*list); }
+            proof { vfin = Some(*list); assert(derefs(list@) =~= derefs(l0).push(*alias)); }
           }
         }
         proof {
@@ -1335,9 +1432,23 @@ fn find_alias_mappings<'a>(f: &'a f::Layout) -> (r: HashMap<String, Vec<&'a Alia
             assert forall|name: String| #[trigger] res@.contains_key(name) implies res@[name]@.len() >= 1 by { if name != alias.to.terminal { assert(t0.contains_key(name)); assert(t0[name]@.len() >= 1); } }
           }
         }
+        //@ C13 | the table after this definition
+        proof { let term = alias.to.terminal;
+          assert forall|name: String| #![trigger res@.contains_key(name)] #![trigger defs_of(ms, name, n0 + 1)] (res@.contains_key(name) <==> defs_of(ms, name, n0 + 1).len() > 0) && (res@.contains_key(name) ==> derefs(res@[name]@) == defs_of(ms, name, n0 + 1)) by {
+            assert(t0.contains_key(name) <==> defs_of(ms, name, n0).len() > 0);
+            if name == term { assert(defs_of(ms, name, n0 + 1) == defs_of(ms, name, n0).push(*alias)); if t0.contains_key(term) { assert(derefs(t0[term]@) == defs_of(ms, term, n0)); } }
+            else { assert(defs_of(ms, name, n0 + 1) == defs_of(ms, name, n0)); assert(res@.contains_key(name) == t0.contains_key(name)); if t0.contains_key(name) { assert(res@[name] == t0[name]); assert(derefs(t0[name]@) == defs_of(ms, name, n0)); } }
+          } }
       },
-      _ => ()
+      _ => {
+        //@ C13 | not an alias definition: nothing changes
+        proof { assert forall|name: String| #![trigger res@.contains_key(name)] #![trigger defs_of(ms, name, n0 + 1)] (res@.contains_key(name) <==> defs_of(ms, name, n0 + 1).len() > 0) && (res@.contains_key(name) ==> derefs(res@[name]@) == defs_of(ms, name, n0 + 1)) by {
+            assert(defs_of(ms, name, n0 + 1) == defs_of(ms, name, n0)); assert(t0.contains_key(name) <==> defs_of(ms, name, n0).len() > 0); if t0.contains_key(name) { assert(derefs(t0[name]@) == defs_of(ms, name, n0)); } } }
+        ()
+      }
     }
+    //@ C13 | one more source mapping scanned
+    proof { done = n0 + 1; }
   }
   
   res
